@@ -277,6 +277,7 @@ fn cmd_run(a: &Args) -> Result<i32, String> {
     // violations: minimise the smallest failing run of each clause, write replay files
     let table = p.table();
     let mut violation_lines = vec![];
+    let mut unstable_lines: Vec<String> = vec![];
     let mut known_lines = vec![];
     let mut violations_json = vec![];
     for (clause, (run, sci, count)) in &agg.violations {
@@ -284,11 +285,20 @@ fn cmd_run(a: &Args) -> Result<i32, String> {
         debug_assert_eq!(table[(*run % table.len() as u64) as usize], *sci);
         let first = execute(p, sc, Choices::generate(run_seed(a.seed, p, sc, *run)), false);
         let alone = matches!(&first.verdict, Err(v) if v.clause == *clause);
+        let mut unstable = false;
         let (m, mut file) = if alone {
             let orig_len = first.choices.len();
             let first_events = first.events;
             let m = minimise(p, sc, first.choices, clause, first_events);
-            let file = replay_file_json(p, sc, a.seed, *run, &m.choices, &m.violation, orig_len, m.execs);
+            let mut file = replay_file_json(p, sc, a.seed, *run, &m.choices, &m.violation, orig_len, m.execs);
+            // Does the minimised list fail every time? Code under test with entropy of its own (a
+            // fresh hash map iterated, an address printed) may fail a clause only now and then; such
+            // a replay file is still written, but it is listed after the stable ones and says so.
+            let again = (0..4).filter(|_| matches!(&execute(p, sc, Choices::replay(m.choices.clone()), false).verdict, Err(v) if v.clause == *clause)).count();
+            if again < 4 {
+                unstable = true;
+                file["stability"] = json!(format!("this list violated the clause in {} of 4 further executions: the code under test does not behave deterministically here, and a replay may or may not reproduce", again));
+            }
             (m, file)
         } else {
             // The run does not fail on its own in a fresh thread: the code under test carries state
@@ -351,7 +361,12 @@ fn cmd_run(a: &Args) -> Result<i32, String> {
             Some(what) => known_lines.push(format!("KNOWN-FINDING: property={} clause={} {} (replay={}, {} failing runs)", p.id, clause, what, path, count)),
             None => {
                 println!("violation: clause={} scenario={} run={} failing_runs={} :: {}", clause, sc.name, run, count, m.violation.message);
-                violation_lines.push(format!("VIOLATION property={} replay={}", p.id, path));
+                if unstable {
+                    println!("simio: note: the replay file of clause {} is not stable (the code under test is nondeterministic for it); it is listed last", clause);
+                    unstable_lines.push(format!("VIOLATION property={} replay={}", p.id, path));
+                } else {
+                    violation_lines.push(format!("VIOLATION property={} replay={}", p.id, path));
+                }
             }
         }
     }
@@ -376,6 +391,7 @@ fn cmd_run(a: &Args) -> Result<i32, String> {
         println!("simio: WARNING probe never hit: {}", z);
     }
 
+    violation_lines.append(&mut unstable_lines);
     let wall = out.wall_s;
     let unlisted = violation_lines.len();
     let evidence = json!({
